@@ -737,6 +737,9 @@ async def _execute(loop, program, observe=None):
             await simnet.run_until_quiet(loop, [conn])
         elif name == 'mark':
             world.ev('net', 'mark', name=op[1])
+        elif name == 'snap':
+            # ['snap', side, label]: record a structural summary of that endpoint's state
+            world.ev(op[1], 'state_snapshot', label=op[2], state=summarise_state(scn.sock[op[1]]))
         elif name == 'subscribe':
             uid = started_uid(op[1])
             if uid is not None and scn.st[uid].get('deferred'):
@@ -925,10 +928,55 @@ async def _execute(loop, program, observe=None):
             'sender_done': sock._sender_task is None or sock._sender_task.done(),
             'receiver_done': sock._receiver_task is None or sock._receiver_task.done(),
             'keepalive_done': getattr(sock, '_keepalive_task', None) is None or sock._keepalive_task.done(),
+            'state': summarise_state(sock),
         }
     if observe is not None:
         await observe(tr)
     return tr
+
+
+def summarise_state(obj, depth=2):
+    """Structural summary of an endpoint's instance state: scalars by value, containers by size, futures / tasks / events by
+    their state, library objects one level down, everything else by type. Used to compare a reconnected client with what a
+    freshly connected one looked like (whatever is not reset shows up as a difference, whichever attribute it lives in)."""
+    import asyncio as aio
+    import collections
+
+    def names(o):
+        out = set(getattr(o, '__dict__', {}).keys())
+        for klass in type(o).__mro__:
+            slots = getattr(klass, '__slots__', ()) or ()
+            out.update((slots,) if isinstance(slots, str) else slots)
+        return sorted(n for n in out if isinstance(n, str) and not n.startswith('__'))
+
+    def summ(v, d):
+        if v is None or isinstance(v, (bool, int, str)):
+            return v
+        if isinstance(v, float):
+            return 'float'
+        if isinstance(v, (bytes, bytearray)):
+            return ['bytes', len(v)]
+        if isinstance(v, aio.Queue):
+            return ['Queue', v.qsize(), v.maxsize]
+        if isinstance(v, (list, tuple, set, frozenset, dict, collections.deque)):
+            return [type(v).__name__, len(v)]
+        if isinstance(v, aio.Task):
+            return ['Task', 'done' if v.done() else 'pending']
+        if isinstance(v, aio.Future):
+            return ['Future', 'done' if v.done() else 'pending']
+        if isinstance(v, aio.Event):
+            return ['Event', v.is_set()]
+        mod = type(v).__module__ or ''
+        if d > 0 and (mod.startswith('rsocket') or mod.startswith('reactivestreams')) and 'transport' not in mod and 'Handler' not in type(v).__name__:
+            try:
+                if hasattr(v, 'qsize'):
+                    return [type(v).__name__, v.qsize()]
+            except Exception:
+                pass
+            return {'<type>': type(v).__name__, **{n: summ(getattr(v, n, '<unset>'), d - 1) for n in names(v)}}
+        return '<%s>' % type(v).__name__
+
+    return {n: summ(getattr(obj, n, '<unset>'), depth) for n in names(obj)}
 
 
 def _case_alarm(signum, frame):
